@@ -40,9 +40,16 @@ Theorem C04_hash_raises_only_missing_contentfile : forall H v f fs t, calc_targe
   content_missing_total v = false /\ f = FContent /\ exists p, t = TFile p /\ fs_get fs p = None.
 Proof. exact calc_none_only_missing_contentfile. Qed.
 
-(** the other branches of _get_cache: same-execution (CSE) hits are used unchecked, errors never *)
-Theorem C04_cse_unchecked : forall H v fs e r, get_cache H v fs CT_CSE e r = GHit.
-Proof. exact cse_unchecked. Qed.
+(** the other branches of _get_cache: a same-execution (CSE) hit is used exactly when every Handle
+    in it is still valid (Scheduler._has_valid_handles, since the C25 repair); file values are not
+    re-checked within one execution -- outside this property's histories, which interleave changes
+    between runs --; errors are never replayed from the backend *)
+Theorem C04_cse_checks_handles_only : forall H v fs e r,
+  get_cache H v fs CT_CSE e r = if handles_valid r then GHit else GMiss.
+Proof. exact cse_checks_handles_only. Qed.
+Theorem C04_handles_valid_meaning : forall r,
+  handles_valid r = true <-> Forall (fun l => forall b, l = LHandle b -> b = true) (visit r).
+Proof. exact handles_valid_spec. Qed.
 Theorem C04_errors_not_replayed : forall H v fs ct r, ct <> CT_CSE -> get_cache H v fs ct true r = GMiss.
 Proof. exact errors_not_replayed. Qed.
 
